@@ -7,6 +7,8 @@ open Lean Mcp.Drv Mcp.Middleware
   Op lines
     {"c":"middleware.run","tr":"streamable"|"sse","opts":[[stage,…],…],"core":core,"hobs":bool,"mods":[…]}
     {"c":"middleware.notify","tr":…,"opts":[[stage,…],…]}
+  optional in run: "inflight":n — the request arrives while n other requests of its session are being processed (the model
+    admits it through `codeGate`, the admission gate read off the regenerated dispatch shapes)
   optional in run: "order":["mw:0","WithSSEServerLogger","mw:1","mw:empty",…] — the full option order of the constructor call:
     "mw:<i>" = the middleware option opts[i], "mw:empty" = a middleware option without arguments, anything else = another
     option of that name. With it the model registers through `serveX … codeWriters` (the regenerated writers of the handler field).
@@ -101,6 +103,10 @@ def handle (op : String) (j : Json) : Except String Json := do
         if Opt.groups xs |>.filter (· ≠ []) |> (· ≠ opts.filter (· ≠ [])) then throw "order: does not list the middleware options in order"
         pure (serveX codeFacts codeWriters tr xs h (.request { mods := mods }))
       | _ => pure (serve codeFacts tr opts h (.request { mods := mods }))
+    -- "inflight":n — the request arrives while n others of its session are being processed: admitted through today's gate
+    let (t, r) := match (j.getObjValAs? Nat "inflight").toOption with
+      | some n => if admitted (codeGate tr) n then (t, r) else ([], none)
+      | none => (t, r)
     pure (Json.mkObj [("trace", Json.arr ((visible hobs t).map evJ).toArray), ("resp", respJ r)])
   | "notify" =>
     let tr ← trOfStr (← getStr j "tr")
